@@ -32,6 +32,14 @@
 //	                                         only temporarily unusable keeps pd from repairing
 //	exec:<what>:<Step>/<src>                 the simulated store refuses a step / a step never finishes
 //	panic
+//
+// Found on the unchanged tree (both literal breaches of the statement, see the report):
+//
+//	no-repair:shadowed-by-temporarily-unusable-store/*   ReplicaStrategy.SelectStoreToAdd: Top(isolation) before the strict state filter
+//	remove-before-add:old=learner,new=voter,joint=off/*  operator.Builder without joint consensus: a learner replaced by a voter is removed first
+//
+// Usage: ./run.sh C10 quick|thorough [-scope name] [-budget s] [-count]; ./run.sh C10 --replay replays/C10-n.json
+// The replay input is the JSON of `input` (stores by position; ids ascending, or descending with desc_ids).
 package main
 
 import (
@@ -295,9 +303,33 @@ func (in *input) cfg() cfgKey {
 	return cfgKey{len(in.Stores), in.MaxReplicas, in.Labels, in.Isolation, in.Rules, in.NoJoint}
 }
 
+// ordCluster fixes the orders that pd takes from Go map iteration (the list of
+// all stores, the list of a region's stores): ascending store id / the region's
+// peer order. They decide ties between equally good stores; the descending
+// variant is enumerated through input.Desc (store ids reversed).
+type ordCluster struct {
+	*mockcluster.Cluster
+}
+
+func (c *ordCluster) GetStores() []*core.StoreInfo {
+	l := c.Cluster.GetStores()
+	sort.Slice(l, func(i, j int) bool { return l[i].GetID() < l[j].GetID() })
+	return l
+}
+
+func (c *ordCluster) GetRegionStores(region *core.RegionInfo) []*core.StoreInfo {
+	var l []*core.StoreInfo
+	for _, p := range region.GetPeers() {
+		if s := c.Cluster.GetStore(p.GetStoreId()); s != nil {
+			l = append(l, s)
+		}
+	}
+	return l
+}
+
 type env struct {
 	key      cfgKey
-	cl       *mockcluster.Cluster
+	cl       *ordCluster
 	oc       *schedule.OperatorController
 	ctx      context.Context
 	cancel   context.CancelFunc
@@ -314,7 +346,7 @@ func must(err error) {
 
 func newEnv(in *input) *env {
 	ctx, cancel := context.WithCancel(context.Background())
-	c := mockcluster.NewCluster(ctx, config.NewTestOptions())
+	c := &ordCluster{mockcluster.NewCluster(ctx, config.NewTestOptions())}
 	c.SetMaxReplicas(in.MaxReplicas)
 	c.SetLocationLabels(labelCfg[in.Labels])
 	c.SetIsolationLevel(isoCfg[in.Isolation])
@@ -1475,12 +1507,12 @@ func scopes() []*scopeSpec {
 			n:    []int{4}, maxReplicas: []int{2, 3}, labelIso: [][2]int{{1, 0}, {1, 1}}, rules: []int{rulesOff}, zones: 2, nolabel: true,
 			goods: []cond{fresh, loaded}, first: singleFaults, maxBad: 1,
 			maxPeers: 3, learners: true, maxFlags: 1, noJoint: f, desc_: f},
-		{name: "rules/4stores/1bad", tiers: "quick", weight: 0.9,
+		{name: "rules/4stores/1bad", tiers: "quick", weight: 1.4,
 			desc: "rule checker + CheckRegion with rule sets default-rule / voters(z1|z2)+learner(z3) / voters(any)+learner(z3) / voters(!z3)+voter(z3); 4 stores in 3 zones, count 1..3 x {no labels, [zone], [zone]+isolation zone}; <=1 not-good store (single fault, busy, add-peer limit, specialUse); region <=4 peers with learners, <=1 down or pending",
 			n:    []int{4}, maxReplicas: []int{1, 2, 3}, labelIso: zoneIso, rules: []int{rulesDefault, rulesDisjoint, rulesOverlap, rulesNotIn}, zones: 3,
 			goods: []cond{fresh}, first: cat(singleFaults, tempFaults[:2], useFaults[:1]), maxBad: 1,
 			maxPeers: 4, learners: true, maxFlags: 1, noJoint: f, desc_: f},
-		{name: "rules/4stores/2bad", tiers: "quick", weight: 0.62,
+		{name: "rules/4stores/2bad", tiers: "quick", weight: 1.0,
 			desc: "rule set voters(z1|z2)+learner(z3) with count 2, [zone]+isolation zone; <=2 not-good stores (single fault / busy / add-peer limit / specialUse + offline / tombstone / disconnected / down); joint consensus on/off",
 			n:    []int{4}, maxReplicas: []int{2}, labelIso: [][2]int{{1, 1}}, rules: []int{rulesDisjoint}, zones: 3,
 			goods: []cond{fresh}, first: cat(singleFaults, tempFaults[:2], useFaults[:1]), others: singleFaults[:4], maxBad: 2,
@@ -1511,17 +1543,17 @@ func scopes() []*scopeSpec {
 			n:    []int{4}, maxReplicas: []int{2, 3, 4}, labelIso: zoneIso, rules: []int{rulesOff}, zones: 3, nolabel: true,
 			goods: []cond{fresh, loaded}, first: cat(singleFaults, tempFaults[:1]), others: singleFaults, maxBad: 2,
 			maxPeers: 4, learners: true, maxFlags: 1, noJoint: f, desc_: f},
-		{name: "rules/4stores/2bad", tiers: "thorough", weight: 16.7,
+		{name: "rules/4stores/2bad", tiers: "thorough", weight: 27,
 			desc: "rule checker + CheckRegion with the four rule sets; 4 stores in 3 zones, count 1..3 x {no labels, [zone], [zone]+isolation zone}; <=2 not-good stores (single fault / busy / add-peer limit / specialUse + offline / tombstone / disconnected / down); region <=4 peers with learners, <=1 down or pending; ascending and descending store ids",
 			n:    []int{4}, maxReplicas: []int{1, 2, 3}, labelIso: zoneIso, rules: []int{rulesDefault, rulesDisjoint, rulesOverlap, rulesNotIn}, zones: 3,
 			goods: []cond{fresh}, first: cat(singleFaults, tempFaults[:2], useFaults[:1]), others: singleFaults[:4], maxBad: 2,
 			maxPeers: 4, learners: true, maxFlags: 1, noJoint: f, desc_: ft},
-		{name: "rules/5stores/1bad", tiers: "thorough", weight: 2.6,
+		{name: "rules/5stores/1bad", tiers: "thorough", weight: 4.2,
 			desc: "the four rule sets, 5 stores in 3 zones, count 1..3 x {no labels, [zone], [zone]+isolation zone}; <=1 not-good store (single fault / busy / add-peer limit / specialUse); region <=4 peers with learners, <=1 down or pending",
 			n:    []int{5}, maxReplicas: []int{1, 2, 3}, labelIso: zoneIso, rules: []int{rulesDefault, rulesDisjoint, rulesOverlap, rulesNotIn}, zones: 3,
 			goods: []cond{fresh}, first: cat(singleFaults, tempFaults[:2], useFaults[:1]), maxBad: 1,
 			maxPeers: 4, learners: true, maxFlags: 1, noJoint: f, desc_: f},
-		{name: "rules/hosts", tiers: "thorough", weight: 3.0,
+		{name: "rules/hosts", tiers: "thorough", weight: 4.8,
 			desc: "rule sets default-rule / voters(z1|z2)+learner(z3) / voters(!z3)+voter(z3) with location labels [zone host] x isolation {none, zone, host}, count 1..3; 4 stores on shared hosts (3 zones x 2 hosts); <=1 single-fault store; region <=4 peers with learners, <=1 down or pending; joint consensus on/off",
 			n:    []int{4}, maxReplicas: []int{1, 2, 3}, labelIso: [][2]int{{2, 0}, {2, 1}, {2, 2}}, rules: []int{rulesDefault, rulesDisjoint, rulesNotIn}, zones: 3, hosts: true,
 			goods: []cond{fresh}, first: singleFaults, maxBad: 1,
@@ -1747,7 +1779,11 @@ func main() {
 		for _, o := range scs[i:] {
 			rest += o.weight
 		}
-		dl := time.Now().Add(time.Duration(float64(time.Until(deadline)) * sc.weight / rest))
+		// (with 50% slack: scopes that finish early leave their time to the later ones)
+		dl := time.Now().Add(time.Duration(float64(time.Until(deadline)) * 1.5 * sc.weight / rest))
+		if dl.After(deadline) {
+			dl = deadline
+		}
 		start := time.Now()
 		n := *nworkers
 		results := make([]*result, n)
@@ -1835,7 +1871,7 @@ func main() {
 			"pkg/mock/mockcluster is the opt.Cluster; time is virtual (vclock): connected = heartbeat now, disconnected = 1 min ago, down = 2 h ago (max-store-down-time 30 min); down peers are reported with 3600 down seconds",
 			"regionsim models a TiKV store applying PD's commands; a new peer is first pending and then catches up; peers pending or down from the start stay so",
 			"oracle written from the statement: a store may receive a peer iff Up, connected, not low on space (available 1% with >= 30 regions), not labelled specialUse, holds no peer, shares no isolation-level location with another peer (of the same rule) and matches the label constraints of a rule for the new peer's role; healthy peer = not down, not pending, store Up and not down; the number of (healthy) peers may only fall below its initial value when voters > max-replicas (rules off) or when the remaining peers still satisfy every rule exactly (rules on); a removal in an operator that also adds happens after the added peer caught up; when peers < required and a fresh empty allowed store exists an operator must be proposed",
-			"symmetry reduction assumes the checkers treat stores / zones / hosts alike up to tie-breaking by id; ascending and descending id assignments are both enumerated in the scopes that say so",
+			"symmetry reduction assumes the checkers treat stores / zones / hosts alike up to tie-breaking; pd lists stores in Go map order, which decides ties between equally good stores: a wrapper around mockcluster fixes GetStores to ascending store id and GetRegionStores to the peer order (reproducible runs), the reverse order is enumerated through descending id assignments in the scopes that say so; other orders are not enumerated",
 			"every outcome of math/rand draws in server/schedule{,/checker,/filter,/operator} and server/core is enumerated through the vrand shim (the checkers draw none on these paths)",
 			"merge-schedule-limit 0 (merge proposals are outside the property); replica-schedule-limit default; regions are not in a joint state initially",
 		}}
